@@ -126,6 +126,7 @@ func StdMenu(u *prog.Universe, t *prog.Table, pfx string) []chain.GenContract {
 			"e2": {selfdestruct("c3")},
 			"e3": {call("CALL", "a3", "e0", 6)},
 			"e4": {sstore("s0", 1), selfdestruct("x2")},
+			"e5": {selfdestruct("distr")},
 		},
 		// c4: orchestrator
 		{
@@ -137,6 +138,8 @@ func StdMenu(u *prog.Universe, t *prog.Table, pfx string) []chain.GenContract {
 			"e5": {call("CALL", "z0", "e0", 0), sstore("s0", 1)},
 			"e6": {call("STATICCALL", "z0", "e0", 0)},
 			"e7": {call("CALL", "v1", "e0", 0)},
+			"e8": {call("CALL", "fc", "e0", 1)},
+			"e9": {sstore("s1", 1), call("CALL", "c3", "e5", 2)},
 		},
 		// c5: creator
 		{
@@ -714,8 +717,24 @@ func maxI(a, b int64) int64 {
 	return b
 }
 
+// stratum counts the Ethereum transactions generated in this process: every second transaction
+// takes its (kind, perturbation) pair from a fixed enumeration instead of the dice, so that a run
+// of a few hundred transactions meets every pair at least once.
+var stratum int
+
+const (
+	nKinds = 3
+	nPert  = 13
+)
+
 func (w *World) genEthSpec(nextNonce map[string]uint64, baseFee int64, created *int) EthSpec {
 	r := w.R
+	stratum++
+	forceKind, forcePert := -1, -1
+	if stratum%2 == 0 {
+		k := (stratum / 2) % (nKinds * nPert)
+		forceKind, forcePert = k%nKinds, k/nKinds
+	}
 	i := r.Intn(len(w.C.Accts))
 	from := w.C.Accts[i]
 	s := EthSpec{From: from, FromName: fmt.Sprintf("a%d", i), Signer: from, Chain: "ok", Tamper: "none", Shape: "ok", Init: "none", Runtime: "none", NewAddr: "none"}
@@ -733,9 +752,18 @@ func (w *World) genEthSpec(nextNonce map[string]uint64, baseFee int64, created *
 		s.Price = floor + int64(r.Intn(6))
 	}
 	// what to do
-	switch k := r.Intn(20); {
+	kk := r.Intn(20)
+	switch forceKind {
+	case 0:
+		kk = 0
+	case 1:
+		kk = 3
+	case 2:
+		kk = 10
+	}
+	switch k := kk; {
 	case k < 3:
-		s.To = pick(r, "a0", "a1", "a2", "a3", "x0", "x1", "z0", "c3", "c0")
+		s.To = pick(r, "a0", "a1", "a2", "a3", "x0", "x1", "z0", "c3", "c0", "fc", "m0")
 		s.Value = int64(r.Intn(30))
 		s.Gas = pick(r, uint64(21000), 21000, 30000, 60000)
 	case k < 5:
@@ -754,7 +782,11 @@ func (w *World) genEthSpec(nextNonce map[string]uint64, baseFee int64, created *
 	}
 	s.Class = "valid"
 	// perturbations
-	switch k := r.Intn(40); {
+	pk := r.Intn(40)
+	if forcePert >= 0 {
+		pk = forcePert
+	}
+	switch k := pk; {
 	case k == 0:
 		s.Nonce = seq + 1
 		s.Class = "nonce-future"
